@@ -113,6 +113,21 @@ def run(tier):
         approx = tr.get('approx') or {}
         observed = [] if approx else None
         bind_to_re(tr, pats, states, rep, observed)
+        # binding self-test (DESIGN section 7): the witnesses bind the automaton to the engine - a product state whose predicted
+        # acceptance set is corrupted (one accepting pattern dropped) must be noticed by the very comparison that just passed
+        if not approx and not os.environ.get('VERIF_NO_SELFTEST'):
+            import copy
+            victims = [copy.deepcopy(st) for st in states if st['acc']][:6]
+            noticed = 0
+            for st in victims:
+                st['acc'] = list(st['acc'])[1:]
+                try:
+                    bind_to_re(tr, pats, [st], Report('x', 'quick', 'model_checking'))
+                except MachineryError:
+                    noticed += 1
+            common.SELFTESTS.append({'trace_spec': 'EventCodesNFA witnesses against re', 'corrupted': len(victims), 'rejected': noticed})
+            if noticed < len(victims):
+                raise MachineryError('binding self-test: %d of %d corrupted acceptance sets went unnoticed' % (len(victims) - noticed, len(victims)))
         if approx:
             # no decision for these patterns: the clauses are judged on what the engine answers for the witnesses
             n = judge_observed(specdir, sc, observed, tr, pats, rep)
